@@ -217,6 +217,8 @@ def run(chk, ctx):
     from .. import tsrules
     for cons, okk, why in tsrules.decimal_sign_rule(ctx):
         chk.ob('C03.S', cons, okk, why, site='pamqp/encode.py::decimal')
+    for cons, okk, why in tsrules.decimal_context_rule(ctx):
+        chk.ob('C03.S', cons, okk, why, site='pamqp/decode.py::decimal')
     for cons, okk, why in tsrules.decimal_accept_rule(ctx):
         chk.ob('C03.S', cons, okk, why,
                detail={'expected': 'every scale 0..255 and every unscaled '
@@ -240,6 +242,7 @@ def run(chk, ctx):
                    site='pamqp/encode.py::field_table')
     # ---- refusals
     refusal_checks(chk, ctx)
+    state_checks(chk, ctx)
     # ---- containers
     container_checks(chk, ctx, decs)
     chk.assume('Decimal arithmetic rebuilds raw * 10^-scale exactly; IEEE '
@@ -501,3 +504,43 @@ def _cursor_after(o, cursor):
         return o.state.env.get(c.args[1])
     ob = o.state.store.get(c.args[1])
     return getattr(ob, 'attrs', {}).get(c.args[2])
+
+
+def state_checks(chk, ctx):
+    """C03.G: what the table encoders / decoders accept and return depends
+    on their argument only (and on the legacy switch on the encode side):
+    no run-time module state is read in a condition or result, none is
+    written."""
+    chk.rule('C03.G', 'the field-value encoders and decoders read no '
+             'run-time module state besides the legacy switch and write '
+             'none (a value accepted once is accepted always)')
+    prog = ctx.prog
+    allowed = {'pamqp.encode.DEPRECATED_RABBITMQ_SUPPORT'}
+    bad = []
+    nruns = 0
+    for mod in ('encode', 'decode'):
+        for fi in prog.module(mod).functions.values():
+            if fi.short == 'encode.support_deprecated_rabbitmq':
+                continue
+            try:
+                it, outs = codec.run(prog, fi)
+            except I.Unsupported:
+                continue
+            nruns += 1
+            for e in it.effects:
+                if e.kind == 'global-write':
+                    bad.append('%s writes %s at %s' % (fi.short, e.target,
+                                                       e.site))
+            for o in outs:
+                terms = [a for a in o.state.kn.atoms if isinstance(a, Sym)]
+                if o.kind == 'return' and isinstance(o.value, (Sym, tuple)):
+                    terms.append(o.value)
+                for t in T.subterms(tuple(terms)):
+                    if t.op == 'global' and t.args[0] not in allowed:
+                        bad.append('%s depends on %s' % (fi.short,
+                                                         t.args[0]))
+    bad = sorted(set(bad))
+    chk.ob('C03.G', 'run-time module state', not bad,
+           '%d abstract runs of the field-value codec: only the legacy '
+           'switch is read, nothing is written' % nruns if not bad else
+           '; '.join(bad[:3]))
